@@ -59,7 +59,7 @@ P={
   "Generated op sequences with skewed sizes; results and page accounting compared.",
   "Public BPlusTree API."),
 "C19":("exploration","lock","generated open/close/drop/kill/restore sequences over several openers against a single-owner model, plus schedules with an opener racing close()",
-  "An open succeeds iff nobody owns the directory (in-process and cross-process openers, races, kill -9, owner restoring a checkpoint); refused opens leave the directory unchanged (LOCK file excepted). Schedule stream: an opener actor tries to open while the closer is parked at the yield points inside close(); it may succeed only after close() has returned.",
+  "An open succeeds iff nobody owns the directory (in-process and cross-process openers, races, kill -9, owner restoring a checkpoint, transactions that outlive their store handle, opens that fail after taking the lock); refused opens - also with other options than the owner's - leave every file unchanged (LOCK file excepted). Schedule stream: an opener actor tries to open while the closer is parked at the yield points inside close(); it may succeed only after close() has returned.",
   "In-process and cross-process; fork duplicates descriptors, hence one worker for the process stream."),
 }
 checks=[]; na=[]
